@@ -32,6 +32,36 @@ def main(cfg):
             s.sink(sink)
             res["thread_started_at_construction"] = len({t.ident for t in threading.enumerate()} - before) > 0
             s.start()
+        elif kind == "chain":
+            # from_iterable -> <mid> -> sink, started the documented way: start() on the LAST node (Stream.start walks
+            # upstream), called from code that itself runs inside an event loop.  Every callback of the pipeline (the
+            # mapped function, the sink) must run on the pipeline's loop.
+            s = Stream.from_iterable([1, 2, 3], **kw)
+            mid = cfg["mid"]
+            fthreads = []
+            if mid == "map_async":
+                async def f(x):
+                    fthreads.append(threading.current_thread() is threading.main_thread())
+                    return x
+                node = s.map_async(f)
+            elif mid == "map":
+                node = s.map(lambda x: x)
+            else:
+                margs = {"buffer": (2,), "timed_window": (0.01,), "delay": (0.01,), "rate_limit": (0.01,), "latest": (),
+                         "partition": (1,), "timed_window_unique": (0.01,)}[mid]
+                node = s.timed_window_unique(0.01, key=lambda x: x) if mid == "timed_window_unique" else getattr(s, mid)(*margs)
+            last = node.sink(sink)
+            res["thread_started_at_construction"] = len({t.ident for t in threading.enumerate()} - before) > 0
+            (last if cfg.get("start_via") == "last" else s).start()
+            for _ in range(100):
+                if seen:
+                    break
+                await asyncio.sleep(0.01)
+            await asyncio.sleep(0.05)
+            res["func_on_main_thread"] = list(fthreads[:3])
+            wt = getattr(node, "work_task", None)
+            if wt is not None and wt[1] is not None and hasattr(wt[1], "get_loop"):
+                res["worker_on_node_loop"] = wt[1].get_loop() is node.loop.asyncio_loop
         else:
             root = Stream(**({} if cfg.get("root_async") is None else {"asynchronous": cfg["root_async"]}))
             args = {"buffer": (2,), "timed_window": (0.01,), "delay": (0.01,), "rate_limit": (0.01,), "latest": (),
